@@ -64,7 +64,7 @@ stack_at(int cap, int lo, int hi, void **top_state, void **below_state, int *top
 
     FREE(ctx_state);
     ctx_state = (ctx_state_t *) calloc((size_t) cap, sizeof(ctx_state_t));
-    ctx_state_cnt = (unsigned char) cap;
+    ctx_state_cnt = cap;
     ctx_state_idx = (unsigned char) d;
     *top_ctx = d ? (int) V_RANGE(1, 2) : 0;
     *top_state = (void *) (uintptr_t) V_RANGE(0, 1000);
@@ -101,6 +101,27 @@ h_step(int cap, int lo, int hi, int kind)
     int topctx, d, i;
 
     setup_contexts();
+    if (cap < 0) {
+        /* the capacity class above -cap is whatever the code's own growth step makes of it: grow for real from
+         * the full table, then take every depth from lo up to the last one an 8-bit index can push from */
+        int g;
+
+        (void) stack_at(-cap, -cap - 1, -cap - 1, &top, &below, &topctx);
+        for (i = 0; lines[0][i]; i++) {
+            buff[i] = lines[0][i];
+        }
+        buff[i] = 0;
+        spifconf_parse_line(VERIF_FP, SPIF_CHARPTR(buff));
+        g = (int) ctx_state_cnt;
+        nlog = 0;
+        if (hi > g - 1) {
+            hi = g - 1;
+        }
+        if (lo > hi) {
+            lo = hi;
+        }
+        cap = g;
+    }
     d = stack_at(cap, lo, hi, &top, &below, &topctx);
     for (i = 0; lines[kind][i]; i++) {
         buff[i] = lines[kind][i];
@@ -217,14 +238,64 @@ h_file(int nlines, int code)
 static void
 h_grow(int which, int cap, int lo, int hi)
 {
-    int d = (int) V_RANGE(lo, hi);
+    int d;
 
     spifconf_init_subsystem();
+    if (cap < 0) {
+        /* the capacity class above -cap: let the code's own growth step produce it (full table, one real
+         * registration), then take every index from lo up to the last one an 8-bit index can register from */
+        int g = 0;
+
+        switch (which) {
+            case 0:
+                FREE(ctx_state);
+                ctx_state = (ctx_state_t *) malloc(sizeof(ctx_state_t) * (size_t) -cap);
+                ctx_state_cnt = -cap;
+                ctx_state_idx = (unsigned char) (-cap - 1);
+                (void) spifconf_register_context_state(1);
+                g = (int) ctx_state_cnt;
+                break;
+            case 1:
+                FREE(fstate);
+                fstate = (fstate_t *) malloc(sizeof(fstate_t) * (size_t) -cap);
+                fstate_cnt = -cap;
+                fstate_idx = (unsigned char) (-cap - 1);
+                (void) spifconf_register_fstate(VERIF_FP, SPIF_CHARPTR("p"), (spif_charptr_t) NULL, 1, 0);
+                g = (int) fstate_cnt;
+                break;
+            case 2:
+                FREE(context);
+                context = (ctx_t *) malloc(sizeof(ctx_t) * (size_t) -cap);
+                memset(context, 0, sizeof(ctx_t) * (size_t) -cap);
+                ctx_cnt = -cap;
+                ctx_idx = (unsigned char) (-cap - 1);
+                (void) spifconf_register_context(SPIF_CHARPTR("n"), h1);
+                g = (int) ctx_cnt;
+                break;
+            case 3:
+                FREE(builtins);
+                builtins = (spifconf_func_t *) malloc(sizeof(spifconf_func_t) * (size_t) -cap);
+                memset(builtins, 0, sizeof(spifconf_func_t) * (size_t) -cap);
+                builtin_cnt = -cap;
+                builtin_idx = (unsigned char) (-cap - 1);
+                (void) spifconf_register_builtin("n", builtin_version);
+                g = (int) builtin_cnt;
+                break;
+        }
+        if (hi > g - 1) {
+            hi = g - 1;
+        }
+        if (lo > hi) {
+            lo = hi;
+        }
+        cap = g;
+    }
+    d = (int) V_RANGE(lo, hi);
     switch (which) {
         case 0:
             FREE(ctx_state);
             ctx_state = (ctx_state_t *) malloc(sizeof(ctx_state_t) * (size_t) cap);
-            ctx_state_cnt = (unsigned char) cap;
+            ctx_state_cnt = cap;
             ctx_state_idx = (unsigned char) d;
             (void) spifconf_register_context_state(1);
             CHECK("push advances the index by one", ctx_state_idx == d + 1);
@@ -233,7 +304,7 @@ h_grow(int which, int cap, int lo, int hi)
         case 1:
             FREE(fstate);
             fstate = (fstate_t *) malloc(sizeof(fstate_t) * (size_t) cap);
-            fstate_cnt = (unsigned char) cap;
+            fstate_cnt = cap;
             fstate_idx = (unsigned char) d;
             (void) spifconf_register_fstate(VERIF_FP, SPIF_CHARPTR("p"), (spif_charptr_t) NULL, 1, 0);
             CHECK("push advances the index by one", fstate_idx == d + 1);
@@ -243,7 +314,7 @@ h_grow(int which, int cap, int lo, int hi)
             FREE(context);
             context = (ctx_t *) malloc(sizeof(ctx_t) * (size_t) cap);
             memset(context, 0, sizeof(ctx_t) * (size_t) cap);
-            ctx_cnt = (unsigned char) cap;
+            ctx_cnt = cap;
             ctx_idx = (unsigned char) d;
             (void) spifconf_register_context(SPIF_CHARPTR("n"), h1);
             CHECK("registration advances the index by one", ctx_idx == d + 1);
@@ -253,7 +324,7 @@ h_grow(int which, int cap, int lo, int hi)
             FREE(builtins);
             builtins = (spifconf_func_t *) malloc(sizeof(spifconf_func_t) * (size_t) cap);
             memset(builtins, 0, sizeof(spifconf_func_t) * (size_t) cap);
-            builtin_cnt = (unsigned char) cap;
+            builtin_cnt = cap;
             builtin_idx = (unsigned char) d;
             (void) spifconf_register_builtin("n", builtin_version);
             CHECK("registration advances the index by one", builtin_idx == d + 1);
@@ -337,6 +408,34 @@ h_lifecycle(void)
         spifconf_free_subsystem();
         CHECK("freeing leaves no variable behind for a later cycle to trip over", spifconf_get_var(SPIF_CHARPTR("k")) == NULL);
     }
+    WITNESS();
+}
+
+
+/* ---- C11: a new cycle starts from whatever the previous one left in the subsystem's static indices and
+ * capacities (all symbolic here: any number of contexts left open, files on the stack, registrations);
+ * initialisation must not depend on it */
+static void
+h_reinit(void)
+{
+    unsigned a_ctx, a_state, a_file, a_builtin;
+
+    spifconf_init_subsystem();
+    a_ctx = ctx_idx; a_state = ctx_state_idx; a_file = fstate_idx; a_builtin = builtin_idx;
+    spifconf_free_subsystem();
+    ctx_idx = V_BYTE(); ctx_state_idx = V_BYTE(); fstate_idx = V_BYTE(); builtin_idx = V_BYTE();
+    ctx_cnt = (unsigned short) V_RANGE(0, 65535); ctx_state_cnt = (unsigned short) V_RANGE(0, 65535);
+    fstate_cnt = (unsigned short) V_RANGE(0, 65535); builtin_cnt = (unsigned short) V_RANGE(0, 65535);
+    spifconf_init_subsystem();
+    CHECK("a new cycle starts with an empty context stack whatever the last one left", ctx_state_idx == a_state);
+    CHECK("a new cycle starts with an empty file stack whatever the last one left", fstate_idx == a_file);
+    CHECK("a new cycle starts with the same registered contexts as the first", ctx_idx == a_ctx);
+    CHECK("a new cycle starts with the same registered built-ins as the first", builtin_idx == a_builtin);
+    CHECK("context stack: index below capacity, storage covers capacity", ctx_state_idx < ctx_state_cnt && OBJ_SIZE(ctx_state) >= sizeof(ctx_state_t) * (size_t) ctx_state_cnt);
+    CHECK("file stack: index below capacity, storage covers capacity", fstate_idx < fstate_cnt && OBJ_SIZE(fstate) >= sizeof(fstate_t) * (size_t) fstate_cnt);
+    CHECK("context table: index below capacity, storage covers capacity", ctx_idx < ctx_cnt && OBJ_SIZE(context) >= sizeof(ctx_t) * (size_t) ctx_cnt);
+    CHECK("built-in table: index below capacity, storage covers capacity", builtin_idx < builtin_cnt && OBJ_SIZE(builtins) >= sizeof(spifconf_func_t) * (size_t) builtin_cnt);
+    spifconf_free_subsystem();
     WITNESS();
 }
 
